@@ -808,7 +808,10 @@ def _optional_below_rerun_project(seed=None):
     sub = [{"op": "gate", "name": "sub:top"}, {"op": "run", "label": "./n.py"}, {"op": "gate", "name": "sub:mid"},
            {"op": "amend", "inp": ["f.txt"]}, {"op": "read", "paths": ["f.txt"]}]
     nn = [{"op": "run", "label": "o", "shell": True, "out": ["z.txt"], "optional": True}]
-    commands = {"q": [{"op": "write", "path": "f.txt", "content": "F\n"}], "o": [{"op": "auto"}], "c": [{"op": "auto"}]}
+    # `c` reads z.txt from the disk like a shell command would (an `auto` command asks get_step_info for its
+    # inputs, which leaves out an input that is detached at that moment: same root as D46)
+    commands = {"q": [{"op": "write", "path": "f.txt", "content": "F\n"}], "o": [{"op": "auto"}],
+                "c": [{"op": "read", "paths": ["z.txt"]}, {"op": "write", "path": "c.txt"}]}
     for i in range(extra):
         nn.append({"op": "run", "label": f"x{i}", "shell": True, "out": [f"x{i}.txt"], "optional": True})
         commands[f"x{i}"] = [{"op": "auto"}]
